@@ -126,3 +126,29 @@ contract(DEP + 'Target.activate', 'C19',
               timeout=None, options=DictOf({'gbt': Bytes(0, 47), 'lrt': Int(0, 3), 'rwt': Int(0, 14)})),
          name='C19/sentinel.lr-of-own-side', expect_fail=True,
          ensures=[('post', 'self.miu + 3 <= LR_OCTETS[options["lrt"]]')], raises={})
+
+# connect(llcp=...): the NFC-DEP options the application gave (bit rate selector, length reduction, waiting
+# time, active mode) reach activate() unchanged - zero and False are values, not "unset"
+from .c15_lock import clf as _clf, CB as _CB, C as _C, on_acquire as _on_acquire, setup as _c15_setup   # noqa
+_DEPOPT = ('brs', 'acm', 'rwt', 'lrt', 'lri')
+contract(_C + 'ContactlessFrontend._llcp_connect', 'C19',
+         dict(self=_clf(),
+              options=DictOf({'llc': Obj('models.clf_models:LlcOptModel', _partial=False, clf=Ref('self'), got=None),
+                              'role': OneOf('target', 'initiator'),
+                              'brs': Int(0, 2), 'acm': Bool(), 'rwt': Int(0, 14), 'lrt': Int(0, 3), 'lri': Int(0, 3),
+                              'on-connect': _CB('lambda llc: False'), 'on-release': _CB('lambda llc: True')}),
+              terminate=_CB('lambda: True')),
+         name='C19/_llcp_connect.options', setup=_c15_setup, hooks={'on_acquire': _on_acquire},
+         ensures=[('O-options.%s' % k, 'options["llc"].got is not None and options["llc"].got.get("%s") == options["%s"]'
+                   % (k, k)) for k in _DEPOPT],
+         raises={'IOError': []},
+         loops={('models.clf_models.LlcModel.run', 'While', 0): LoopSpec(invariant=['True'])})
+# "all later traffic stays within those limits" is C10: its contracts are obligations of C19 too
+import copy as _copy
+from pyvc.contracts import REGISTRY as _REG
+for _c in list(_REG):
+    if _c.prop == 'C10' and not _c.expect_fail and not _c.name.startswith('C10/pdu.'):
+        _c2 = _copy.copy(_c)
+        _c2.prop = 'C19'
+        _c2.name = 'C19/traffic.' + _c.name.split('/', 1)[1]
+        _REG.append(_c2)
